@@ -170,7 +170,9 @@ def gen_doc(r):
         mp.append("maxfall@%s" % dm(l6[1]))
     mast = None
     if r.random() < 0.85:
-        mast = (r.choice([(1, 4), (5, 3), (0, 0), (1, 2), (50, 4), (49999, 8), (5, 2)]), r.choice([1000, 2000, 4000, 10000, 600, 0]))
+        # the minimum is truncated (not rounded) after x10000 in binary32: four-decimal values exercise the float width
+        mast = (r.choice([(1, 4), (5, 3), (0, 0), (1, 2), (50, 4), (49999, 8), (5, 2)]) if r.random() < 0.3 else (r.randrange(0, 2001), 4),
+                r.choice([1000, 2000, 4000, 10000, 600, 0, 3600, 745, 995, 79]))
         mp.append("minlum@%s" % dm(mast[0]))
         mp.append("maxlum@%d" % mast[1])
     l254 = None
